@@ -343,19 +343,51 @@ pub fn undefined_elsewhere() -> Vec<(Input, &'static str, bool)> {
             "extern_value_ptr" => items.push(Item::ExternValue { name: "gv".into(), public: true, ty: vt.clone().cptr(), address: Some(0x2000) }),
             _ => items.push(Item::ExternValue { name: "gv".into(), public: true, ty: vt.clone(), address: Some(0x2000) }),
         }
-        // referrer declared before and after the owner
-        for owner_first in [true, false] {
-            let mut all = vec![];
-            if owner_first {
-                all.push(Item::Type(foo.clone()));
+        // the owner does not mention the referrer, embeds it by value, or derives from it (the
+        // referrer only needs the *name* of the generated table, or a table that holds pointers only)
+        for relation in ["none", "embeds", "base"] {
+            if relation != "none" && pos.starts_with("extern") {
+                continue;
             }
-            all.push(Item::Type(r.clone()));
-            all.extend(items.clone());
-            if !owner_first {
-                all.push(Item::Type(foo.clone()));
+            let mut foo = foo.clone();
+            match relation {
+                "embeds" => foo.fields.push(FieldS::new("r", MTy::user("T1"))),
+                "base" => {
+                    foo.fields.insert(0, FieldS::new("b", MTy::user("T1")).based());
+                    if let Some(v) = &r.vft {
+                        // a first base with a vftable: the derived table repeats its slots
+                        let mut funcs = v.funcs.clone();
+                        funcs.push(FuncS::new("v"));
+                        foo.vft = Some(VftS { size: None, funcs });
+                    }
+                }
+                _ => {}
             }
-            out.push((mk(all), if pos.starts_with("extern") { "generated_vftable_in_extern_value" } else { "generated_vftable_name" }, true));
+            // referrer declared before and after the owner
+            for owner_first in [true, false] {
+                let mut all = vec![];
+                if owner_first {
+                    all.push(Item::Type(foo.clone()));
+                }
+                all.push(Item::Type(r.clone()));
+                all.extend(items.clone());
+                if !owner_first {
+                    all.push(Item::Type(foo.clone()));
+                }
+                // a derived table that repeats `g(p: *const FooVftable)` mentions its own generated struct
+                let own = relation == "base" && pos == "vfunc_param";
+                out.push((mk(all), if pos.starts_with("extern") { "generated_vftable_in_extern_value" } else if own { "generated_vftable_name_in_own_vfunc" } else { "generated_vftable_name" }, true));
+            }
         }
+    }
+    // ... and in a virtual function of the very type it is generated for
+    {
+        let mut foo = TypeS::new("Foo");
+        let mut g = FuncS::new("g");
+        g.args = vec![("p".into(), MTy::user("FooVftable").cptr())];
+        foo.vft = Some(VftS { size: None, funcs: vec![g] });
+        foo.fields = vec![FieldS::new("x", MTy::b("u8").cptr())];
+        out.push((mk(vec![Item::Type(foo)]), "generated_vftable_name_in_own_vfunc", true));
     }
     // ... also when it is imported by name from another module
     for declared_first in [true, false] {
